@@ -55,7 +55,7 @@ type Universe struct {
 
 func newUniverse(db *DB) *Universe {
 	return &Universe{structs: map[string]*StructInfo{}, structOf: map[string]*StructInfo{}, typeIDs: map[string]int{}, db: db,
-		strLits: map[string]string{}, fnIDs: map[string]int{}, heapSorts: map[string]bool{}}
+		strLits: map[string]string{"": "str_empty"}, fnIDs: map[string]int{}, heapSorts: map[string]bool{}}
 }
 
 func mangle(s string) string {
@@ -71,7 +71,7 @@ func mangle(s string) string {
 }
 
 func shortTypeName(t types.Type) string {
-	return types.TypeString(t, func(p *types.Package) string { return p.Name() })
+	return types.TypeString(t, pkgAlias)
 }
 
 func bvSort(w int) string { return fmt.Sprintf("(_ BitVec %d)", w) }
@@ -318,4 +318,13 @@ func bvLit(v *big.Int, w int) string {
 	m := new(big.Int).Lsh(big.NewInt(1), uint(w))
 	x := new(big.Int).Mod(v, m)
 	return fmt.Sprintf("(_ bv%s %d)", x.String(), w)
+}
+
+// pkgAlias: package qualifier used in sort names and typeid()/cast() names;
+// the thrift schema package is also called "parquet", so it is aliased "sch".
+func pkgAlias(p *types.Package) string {
+	if strings.HasSuffix(p.Path(), "parsyl/parquet/schema") {
+		return "sch"
+	}
+	return p.Name()
 }
